@@ -14,7 +14,10 @@ allp = "--all" in args
 tier = "quick"
 if "--tier" in args:
     tier = args[args.index("--tier") + 1]
-ids = [a for a in args if not a.startswith("--") and a not in ("quick", "thorough")]
+label = None
+if "--label" in args:
+    label = args[args.index("--label") + 1]
+ids = [a for a in args if not a.startswith("--") and a not in ("quick", "thorough") and a != label]
 seeded = os.path.join(ROOT, "seeded")
 if not ids:
     ids = sorted(d for d in os.listdir(seeded) if os.path.isdir(os.path.join(seeded, d)))
@@ -52,13 +55,13 @@ try:
         finally:
             subprocess.run(["git", "-C", "/repo", "checkout", "--", "."], check=True)
         fw = meta.setdefault("framework", {})
-        fw[tier] = {"ran": "git -C /repo apply seeded/%s/patch.diff; ./check <Cxx> %s; git -C /repo checkout -- ." % (sid, tier),
+        fw[label or tier] = {"seed": os.environ.get("VERIF_SEED", "1"), "ran": "git -C /repo apply seeded/%s/patch.diff; ./check <Cxx> %s; git -C /repo checkout -- ." % (sid, tier),
                     "results": results,
                     "caught_by": sorted(p for p, v in results.items() if v["rc"] == 1 and v["violation_lines"]),
                     "at": time.strftime("%Y-%m-%dT%H:%M:%SZ", time.gmtime())}
         json.dump(meta, open(os.path.join(d, "meta.json"), "w"), indent=1)
         own = results[prop]
-        line = "%s %s own-check rc=%d kinds=%s caught_by=%s" % (sid, tier, own["rc"], ",".join(own["kinds"]), ",".join(fw[tier]["caught_by"]))
+        line = "%s %s own-check rc=%d kinds=%s caught_by=%s" % (sid, tier, own["rc"], ",".join(own["kinds"]), ",".join(fw[label or tier]["caught_by"]))
         print(line, flush=True)
         summary.append(line)
 finally:
